@@ -504,18 +504,43 @@ class Sem:
                 # a pattern binding denotes a part of the scrutinee: stop, but tell what it is part of
                 return Val(n, frame, proj, b)
             if b.proj:
-                e = strip(b.expr)
-                # projection of a tuple expression can be followed
-                p = b.proj
-                while p and p[0][0] == "t" and strip(e).get("k") == "Tup":
-                    e = strip(e)["es"][p[0][1]]
-                    p = p[1:]
+                e, ef, p = self.project(b.expr, b.frame, b.proj)
                 if p:
                     return Val(n, frame, proj, b)
-                node, frame = e, b.frame
+                node, frame = e, ef
                 continue
             node, frame = b.expr, b.frame
         return Val(peel(node), frame, proj)
+
+    def project(self, expr, frame, proj, depth=0):
+        """apply tuple projections to an expression: through tuple literals and through the tail of inlined local helpers.
+        Returns (node, frame, remaining projection)"""
+        e = peel(expr)
+        p = tuple(proj)
+        while p and p[0][0] == "t" and depth < 4:
+            if e.get("k") == "Tup" and p[0][1] < len(e["es"]):
+                e = peel(e["es"][p[0][1]])
+                p = p[1:]
+                continue
+            if e.get("k") in ("Call", "MethodCall"):
+                h2 = self.should_inline(e, frame)
+                if h2 is not None:
+                    f2 = self._enter(h2, e, frame)
+                    t, tf = tail_value(self, h2["body"], f2)
+                    b = self.lookup(t, tf)
+                    if b is not None and b.expr is not None and not b.assigns and not b.proj:
+                        t, tf = peel(b.expr), b.frame
+                    e, frame = peel(t), tf
+                    depth += 1
+                    continue
+            if e.get("k") == "Path":
+                b = self.lookup(e, frame)
+                if b is not None and b.expr is not None and not b.assigns and not b.proj and b.kind in ("let", "arg"):
+                    e, frame = peel(b.expr), b.frame
+                    depth += 1
+                    continue
+            break
+        return e, frame, p
 
     def same(self, a, fa, b, fb):
         """do two expressions denote the same value (same binding, or same resolved node)?"""
@@ -679,7 +704,7 @@ class Sem:
             if f is not None:
                 return f
         if strip(v.node).get("k") == "Tup" and not v.proj and v.bind is None:
-            comps = [Val(peel(x), v.frame) for x in strip(v.node)["es"]]
+            comps = [Val(strip(x), v.frame) for x in strip(v.node)["es"]]
             # make alternatives as wide as the tuple
             alts2 = []
             for a in alts:
@@ -691,7 +716,7 @@ class Sem:
                     alts2.append(a + tuple("_" for _ in range(len(comps) - len(a))))
             return F_atom(Atom("is", scruts=comps, alts=alts2, frame=frame))
         alts = [a if len(a) == 1 else ("(" + ",".join(a) + ")",) for a in alts]
-        return F_atom(Atom("is", scruts=[Val(peel(sc), frame)], alts=alts, frame=frame))
+        return F_atom(Atom("is", scruts=[Val(strip(sc), frame)], alts=alts, frame=frame))
 
     def _is_of_branches(self, vn, heads, frame, depth):
         branches = []     # (condition formula, ctor head or None when it diverges)
@@ -907,11 +932,18 @@ class Sem:
                 f2 = self._enter(h2, n, frame)
                 yield from self._visit(h2["body"], pc, f2, in_closure, in_loop)
 
+    def closure_leaves(self, clo):
+        """value expressions a closure can return (tail leaves and explicit returns written in the closure itself)"""
+        home = [s.frame for s in self.sites() if s.node is clo]
+        return self._leaves(clo["body"], lambda s: bool(s.in_closure) and s.in_closure[-1] is clo and (not home or s.frame is home[0]))
+
     # -- result leaves of the root function: value expressions it can return, with their path conditions
     def result_leaves(self):
+        return self._leaves(self.h["body"], lambda s: s.frame is self.root and not s.in_closure)
+
+    def _leaves(self, body, own):
         out = []
-        body = self.h["body"]
-        site_of = {id(s.node): s for s in self.sites() if s.frame is self.root}
+        site_of = {id(s.node): s for s in self.sites() if own(s)}
 
         def leaves(n, into):
             n0 = n
@@ -932,14 +964,14 @@ class Sem:
         top = []
         leaves(body, top)
         for s in self.sites():
-            if s.frame is self.root and not s.in_closure and s.node.get("k") == "Ret" and "e" in s.node and not s.node.get("x"):
+            if own(s) and s.node.get("k") == "Ret" and "e" in s.node and not s.node.get("x"):
                 leaves(s.node["e"], top)
         for n in top:
             s = site_of.get(id(n))
             if s is None:
                 # stripped wrappers: find the innermost site containing it
                 for cand in self.sites():
-                    if cand.frame is self.root and strip(cand.node) is n:
+                    if own(cand) and strip(cand.node) is n:
                         s = cand
                         break
             if s is not None:
@@ -1252,7 +1284,7 @@ def within(site, closure_node):
     return any(c is closure_node for c in site.in_closure)
 
 
-def provenance(S, node, frame, limit=40, fields=False):
+def provenance(S, node, frame, limit=40, fields=False, through_mut=False):
     """where a value comes from: (root Bind or None, root node, frame, [methods applied from the root to the value]).
     Follows method-call receivers, UFCS calls on their first argument, field/index/deref, immutable lets, helper
     arguments and pattern bindings (a binding taken out of a scrutinee counts as derived from the scrutinee)."""
@@ -1294,8 +1326,12 @@ def provenance(S, node, frame, limit=40, fields=False):
                 methods.append("<for>")
                 node, frame = e["args"][0], b.frame
                 continue
-        if b.expr is None or (b.assigns and b.kind in ("let", "arg")):
+        if b.expr is None or (b.assigns and b.kind in ("let", "arg") and not through_mut):
             return b, n, frame, list(reversed(methods))
+        if b.proj and b.kind in ("let", "arg") and b.proj[0][0] == "t":
+            e, ef, rest = S.project(b.expr, b.frame, b.proj)
+            node, frame = e, ef
+            continue
         node, frame = b.expr, b.frame
     return None, peel(node), frame, list(reversed(methods))
 
@@ -1397,9 +1433,9 @@ def passes_through(S, node, frame, target, limit=40):
     return False
 
 
-def param_index(S, node, frame):
+def param_index(S, node, frame, through_mut=False):
     """index of the root function parameter the value is rooted in (None if it is not rooted in a parameter)"""
-    b = provenance(S, node, frame)[0]
+    b = provenance(S, node, frame, through_mut=through_mut)[0]
     if b is not None and b.kind == "param" and b.frame is S.root:
         return b.index
     return None
